@@ -4,6 +4,24 @@ markdown catch table for DESIGN.md section 14."""
 import json, os, glob
 ROOT = os.path.dirname(os.path.dirname(os.path.abspath(__file__)))
 DESC = {
+ "C01-A": ("C01", "clause pre-filter: a clause is skipped when a ground head argument differs (`!=`) from the goal's argument as returned by get_ground_term()", "a clause head with a ground compound or list argument and a goal argument that is a compound or list still containing a variable"),
+ "C01-B": ("C01", "list unification no longer has the case `both lists end in a tail variable`", "two open lists with equally long prefixes are unified and the tail's value reaches an answer or count()"),
+ "C09-A": ("C09", "compound-term unification starts from an empty result set (same mechanism as C06-A, found independently)", "every argument pair of two compound terms has `$_` on one side, under a non-empty substitution set"),
+ "C09-B": ("C09", "a rule pre-filter compares variable-free arguments with `!=` and treats a nested `$_` as a constant", "`$_` at depth >= 1 inside an argument of a head or goal that contains no logic variable, resolved against knowledge-base rules"),
+ "C10-A": ("C10", "the ids of a matched fact are handed back when the substitution set did not grow", "a fact whose variables occur only nested in its head, called with an unbound argument, followed by another clause with variables in the same proof"),
+ "C10-B": ("C10", "recreate_variables() returns `ground` complex terms unchanged; the groundness test treats function terms as ground", "a complex term or list whose only variables sit inside a function term (add, join, ...)"),
+ "C11-A": ("C11", "facts are renamed through a scratch map that is created once per clause loop and never emptied", "two non-ground facts of one predicate, the earlier rejected at the head, the later sharing a variable name with it"),
+ "C11-B": ("C11", "add_rules() drops a rule that is `already defined`, compared including variable names", "the same rule twice up to renaming in one predicate"),
+ "C12-A": ("C12", "single-pass evaluation that switches to floating point only when the first float argument is reached", "three or more arguments, at least two leading integers whose integer result differs from the float result, then a float"),
+ "C12-B": ("C12", "fast path for two integer arguments; divide uses Euclidean instead of truncating division", "integer division with a negative dividend and an inexact quotient"),
+ "C13-A": ("C13", "the redirect that evaluates a function on the right of `=` is limited to numbers and variables on the left", "`atom = join(...)` with the literal atom on the left equal to the join's value"),
+ "C13-B": ("C13", "function-vs-function shortcut evaluates the other function's arguments with this function's operation", "both operands are functions with different names"),
+ "C14-A": ("C14", "the five predicates share one helper that orders floats with total_cmp", "a negative-zero float against 0.0 / 0, or a NaN operand"),
+ "C14-B": ("C14", "`identical operands` shortcut before the operands are resolved", "the same unbound variable, or the same list / complex term, on both sides of a comparison"),
+ "C15-A": ("C15", "filter() returns its input list when the number of kept terms equals the recorded count", "an input list with a bound tail variable from which the filter removes exactly (length of the tail's list - 1) terms"),
+ "C15-B": ("C15", "append() splices its last input list with the splicing constructor", "every earlier input contributes no term (`append([], [b, c], $X)`), or the last input list has a bound tail"),
+ "C16-A": ("C16", "append() follows only the first bound tail variable of a list argument", "a list argument whose tail variable is bound to a list that itself ends in a bound tail variable"),
+ "C16-B": ("C16", "append() compares lengths before unifying Out", "Out already bound to an open list `[$H | $T]` whose prefix length differs from the result length"),
  "C02-A": ("C02", "rule-body re-entry rewritten with Option::take(); the cut test after a failed re-entry is dropped", "a cut in a non-first alternative of a disjunction, the call re-entered after its first answer, the goals after the cut fail, and a later clause matches"),
  "C02-B": ("C02", "every node kind tests its own cut flag; the Or node does so only after delegating to its tail node", "a parenthesised disjunction left of a cut whose later alternative supplied the answer and has more, and the goals after the cut fail"),
  "C03-A": ("C03", "not(G) decides ground goals on fact-only predicates by structural equality instead of unification", "G ground at the call, predicate without rule bodies, and the only fact answering G is non-ground (`$_` or a repeated variable)"),
